@@ -64,7 +64,7 @@ func kstr(s string) []byte { return append(be16(len(s)), []byte(s)...) }
 
 // setup bytes a side sends before its first message
 func setup(proto string, isClient bool) []byte {
-	if proto == "amqp" {
+	if proto == "amqp" || proto == "amqphb" {
 		if isClient {
 			return []byte("AMQP\x00\x00\x09\x01")
 		}
@@ -101,8 +101,16 @@ func encode(proto string, isReq bool, pid int, key int, st *encState) []byte {
 		fr := http2.NewFramer(&out, nil)
 		fr.WriteHeaders(http2.HeadersFrameParam{StreamID: uint32(key), BlockFragment: append([]byte(nil), st.hbuf.Bytes()...), EndStream: true, EndHeaders: true})
 		return out.Bytes()
-	case "amqp":
-		// queue.declare (50,10) / queue.declare-ok (50,11) on channel `key`; the queue name carries the marker
+	case "amqp", "amqphb":
+		// queue.declare (50,10) / queue.declare-ok (50,11) on channel `key`; the queue name carries the marker.
+		// amqphb: a heartbeat frame travels in front of every second message of a half (same segment)
+		var pre []byte
+		if proto == "amqphb" {
+			st.sent++
+			if st.sent%2 == 1 {
+				pre = []byte{8, 0, 0, 0, 0, 0, 0, 0xCE}
+			}
+		}
 		var pl []byte
 		pl = append(pl, be16(50)...)
 		if isReq {
@@ -119,7 +127,7 @@ func encode(proto string, isReq bool, pid int, key int, st *encState) []byte {
 			pl = append(pl, be32(3)...)
 			pl = append(pl, be32(1)...)
 		}
-		fr := []byte{1}
+		fr := append(pre, 1)
 		fr = append(fr, be16(key)...)
 		fr = append(fr, be32(len(pl))...)
 		fr = append(fr, pl...)
@@ -245,6 +253,9 @@ func newWorld(proto string, conns []int) *world {
 	}
 	if proto == "redissub" {
 		extName = "redis"
+	}
+	if proto == "amqphb" {
+		extName = "amqp"
 	}
 	ext := extensions.ExtensionsMap[extName]
 	w := &world{proto: proto, ext: ext, matcher: ext.Dissector.NewResponseRequestMatcher(), stats: &api.AppStats{},
